@@ -12,6 +12,13 @@
      K:<c|s>                              check_fullness
      R:<c|s>:<fid>                        remove dead handler
      S                                    snapshot (state printed)
+     Y:<c|s>:<r><w><l>:<fids|->          not a micro-step: what the main select() of the iteration reported
+                                          (tunnel readable / writable, a listener, the sockets of these flows);
+                                          at the next S the logged micro-steps since the previous S are compared
+                                          with Model/StreamLoop.iter_events_v for these answers, and
+                                          Model/StreamLoop.sleepsb_v of that end at the previous S is printed:
+                                          " || sleep=<af><fx> || iter=<af><fx>" (runonce as found / repaired;
+                                          "--" when there was no Y)
    output: snapshots joined by " ## "; "CRASH <cls> <index>" ends the run *)
 let side_of = function "c" -> Client | "s" -> Server | _ -> failwith "side"
 let conn_of = function
@@ -77,17 +84,59 @@ let parse_ev s =
   | ["K"; sd] -> EvCheckFull (side_of sd)
   | ["R"; sd; fid] -> EvRemove (side_of sd, n_of_int (int_of_string fid))
   | _ -> failwith ("bad event " ^ s)
+(* one real iteration against Model/StreamLoop.iter_events.  y: the Y marker; evs: the micro-steps logged between the
+   two S marks, in order; w0: the model state at the first of them *)
+let iter_check (y : string) (evs : event list) (w0 : world) : string =
+  match String.split_on_char ':' y with
+  | ["Y"; sd; flags; socks] when String.length flags = 3 ->
+      let sd = side_of sd in
+      let ready = if socks = "-" then [] else List.map int_of_string (String.split_on_char ',' socks) in
+      let lat = List.exists (function EvCheckFull _ -> true | _ -> false) evs in
+      (* Mux.callback calls: D* then at most one F, each *)
+      let calls = ref [] and cur = ref [] and open_ = ref false in
+      List.iter (function
+        | EvDeliver (_, o) -> cur := o :: !cur; open_ := true
+        | EvFlush _ -> calls := (List.rev !cur, true) :: !calls; cur := []; open_ := false
+        | _ -> ()) evs;
+      if !open_ then calls := (List.rev !cur, false) :: !calls;
+      let calls = Array.of_list (List.rev !calls) in
+      let cbs = Hashtbl.create 16 in
+      List.iter (function
+        | EvCallback (_, f, o) -> let k = int_of_n f in
+            Hashtbl.replace cbs k ((try Hashtbl.find cbs k with Not_found -> []) @ [o])
+        | _ -> ()) evs;
+      let a = { a_lis = (flags.[2] = '1');
+                a_acc = List.concat (List.map (function EvAccept p -> [p] | _ -> []) evs);
+                a_r = (flags.[0] = '1'); a_w = (flags.[1] = '1');
+                a_mux = (fun k -> let k = int_of_nat k in if k < Array.length calls then calls.(k) else ([], false));
+                a_sock = (fun f -> List.mem (int_of_n f) ready);
+                a_io = (fun f k -> let l = (try Hashtbl.find cbs (int_of_n f) with Not_found -> []) in
+                                   let k = int_of_nat k in if k < List.length l then List.nth l k else io_default) } in
+      (* one pass per variant; the two variants differ only when a late STOP_SENDING is due *)
+      let pe = pass_events sd w0 in
+      let one fx = (match presel_pass_v fx sd w0 with
+                    | Ok po -> (bl (sleeps_of (fun _ -> fd_cand) sd po),
+                                bl (pe @ iter_rest lat sd a po = evs && ans_real_po sd a po))
+                    | Crash _ -> ("0", "0")) in
+      let (s0, i0) = one false in
+      let (s1, i1) = if no_late_stopb sd w0 then (s0, i0) else one true in
+      s0 ^ s1 ^ " || iter=" ^ i0 ^ i1
+  | _ -> "?? || iter=??"
 let handle = function
   | "RUN" :: maxc :: lbs :: evs ->
       let w = ref (world0 (n_of_int (int_of_string maxc)) (n_of_int (int_of_string lbs))) in
       let out = ref [] in
       let waits = ref [] in
       let idx = ref 0 in
+      let seg = ref [] and ymark = ref "" and w_start = ref !w in
       (try
         List.iter (fun s ->
           if s = "S" then begin
-            out := world_str !w (String.concat "," (List.rev !waits)) :: !out; waits := []
-          end else begin
+            let it = if !ymark = "" then "-- || iter=--" else iter_check !ymark (List.rev !seg) !w_start in
+            out := (world_str !w (String.concat "," (List.rev !waits)) ^ " || sleep=" ^ it) :: !out; waits := [];
+            seg := []; ymark := ""; w_start := !w
+          end else if String.length s > 1 && s.[0] = 'Y' then ymark := s
+          else begin
             let ev = parse_ev s in
             (match ev with
              | EvPreSelect (sd, fid) ->
@@ -97,6 +146,7 @@ let handle = function
                               waits := wait_str ws :: !waits
                   | None -> ())
              | _ -> ());
+            seg := ev :: !seg;
             (match step !w ev with
              | Ok w' -> w := w'
              | Crash c -> out := Printf.sprintf "CRASH %s %d" (crash_str c) !idx :: !out; raise Exit)
